@@ -581,9 +581,14 @@ def mon_C06(ctx):
                         # to the last digit: old value times surplus over tally, truncated once (fused) or after each of
                         # the two operations (multiply, then divide) -- the two forms the rules prescribe
                         prod = pwn * sn_
-                        one_step = prod / z3.IntVal(vn)
-                        two_step = ((prod / z3.IntVal(S)) * S) / z3.IntVal(vn)
-                        ctx.bad('transfer-value-not-as-prescribed', z3.And(wn != one_step, wn != two_step))
+                        if ctx.rule == 'mpls':
+                            # 167.20: surplus fraction (surplus / votes, truncated) times the current value, truncated
+                            frac = (sn_ * S) / z3.IntVal(vn)
+                            ctx.bad('transfer-value-not-as-prescribed', wn != (frac * pwn) / z3.IntVal(S))
+                        else:
+                            one_step = prod / z3.IntVal(vn)
+                            two_step = ((prod / z3.IntVal(S)) * S) / z3.IntVal(vn)
+                            ctx.bad('transfer-value-not-as-prescribed', z3.And(wn != one_step, wn != two_step))
         if prev is not None and tag == 'transfer' and not msg.startswith(SURPLUS_MSG):
             ctx.reach('exclusion-transfer-checked')
             for i in range(len(bs)):
@@ -1213,6 +1218,14 @@ def mon_C03(ctx):
         quota_ref = nb * S * S // ((ctx.seats + 1) * S) + 1
         def run(follow_impl, notes):
             return R.count(cands, ctx.seats, common.papers_from(E, S), rank, nb, rule.endswith('batch'), follow_impl, notes)
+    elif rule == 'mpls':
+        if ctx.U.undeclared:
+            return
+        from refs import mpls as R
+        S = R.S
+        quota_ref = (nb // (ctx.seats + 1) + 1) * S
+        def run(follow_impl, notes):
+            return R.count(cands, ctx.seats, common.papers_from(E, S), rank, nb, follow_impl, notes)
     elif rule == 'meek-prf':
         return _c03_meek_prf(ctx, cands, rank, nb)
     elif rule == 'qpq':
